@@ -1,5 +1,6 @@
 import Logrange.Proofs.Date
 import Logrange.Proofs.DateRoundTrip
+import Logrange.Proofs.DateLineParser
 import Logrange.Generated.C20
 /-!
 # C20 — Timestamp text is parsed to the instant it denotes, for every supported format
@@ -181,6 +182,35 @@ example : let L := (compile gterms [89, 89, 89, 89, 45, 77, 77, 45, 68, 68, 32, 
       some [50, 48, 49, 57, 45, 48, 51, 45, 49, 49, 32, 49, 50, 58, 48, 52, 58, 48, 53] := by
   refine ⟨by decide +kernel, by decide, by decide +kernel⟩
 
+def now0 : Now := ⟨2026, 9, 26⟩
+
+/-! ## At the start of a log line read by the collector: the line parser's remembered format and skip counters -/
+
+def lpcfg : LPCfg :=
+  { maxFail := C20.lpMaxFailCnt, maxSkip0 := C20.lpMaxSkipCnt, maxSkipOnDetect := C20.lpMaxSkipCntOnDetect, skipCap := C20.lpSkipCap,
+    resetOnFast := C20.lpResetsCountOnFastPath, resetOnDetect := C20.lpResetsCountOnDetect,
+    lastOnFast := C20.lpSetsLastDateOnFastPath, lastOnDetect := C20.lpSetsLastDateOnDetect }
+
+/-- `lineParser.parse` resets its failure counter where the full parser detects a format (read from the source now) -/
+theorem lp_resets_on_detect : C20.lpResetsCountOnDetect = true := by decide
+
+/-- **Every time-stamped line of a file gets its own date** as long as fewer than `maxFailCnt` (10) undated lines occur in
+a row — whatever the mix of headers and continuation lines, any file length: the parser never enters `skipping`.
+`hcons`: a line the remembered format dates is also dated by the full parser (which contains that format) — a property of
+the date parsers, exercised by the harness (section linefile), assumed here. What the date *is* is `first_match_correct`
+(tested) / the theorems above. -/
+theorem collector_headers_dated (now : Now) (lines : List Bytes)
+    (hruns : okRuns lpcfg.maxFail 0 (lines.map (lineAns gadj colFmts now)) = true)
+    (hcons : consistent (lines.map (lineAns gadj colFmts now))) :
+    headersDated (lines.map (lineAns gadj colFmts now)) (lpRun lpcfg (LP.init lpcfg) (lines.map (lineAns gadj colFmts now))) = true :=
+  lp_headers_dated lpcfg lp_resets_on_detect _ 0 _ (lpInv_init lpcfg) hruns hcons
+
+/-- non-vacuity: header, undated line, header — dated by format 49 `YYYY-MM-DD HH:mm:ss`, carried, dated (through
+detection again, because the undated line made the parser forget the format) -/
+example : lpRun lpcfg (LP.init lpcfg) ([[50, 48, 49, 57, 45, 48, 51, 45, 49, 49, 32, 49, 51, 58, 49, 52, 58, 49, 53, 32, 99, 111, 109, 46, 97, 99, 109, 101, 46, 83, 101, 114, 118, 101, 114, 32, 104, 97, 110, 100, 108, 101, 10], [73, 78, 70, 79, 58, 32, 114, 101, 113, 117, 101, 115, 116, 32, 104, 97, 110, 100, 108, 101, 100, 10], [50, 48, 49, 57, 45, 48, 51, 45, 49, 49, 32, 49, 51, 58, 50, 49, 58, 49, 54, 32, 99, 111, 109, 46, 97, 99, 109, 101, 46, 83, 101, 114, 118, 101, 114, 32, 104, 97, 110, 100, 108, 101, 10]].map (lineAns gadj colFmts now0)) =
+    [.dated 49 ⟨2019, 3, 11, 13, 14, 15, 0, .dflt⟩, .carried (some ⟨2019, 3, 11, 13, 14, 15, 0, .dflt⟩),
+     .dated 49 ⟨2019, 3, 11, 13, 21, 16, 0, .dflt⟩] := by decide +kernel
+
 /-! ## The full statement, and why it does not hold -/
 
 /-- the full property on the model for one list: the text of any valid instant in the list's `k`-th format, alone, is
@@ -189,7 +219,6 @@ def C20_full (fmts : List CFormat) (parse : Bytes → PRes) : Prop :=
   ∀ (k : Nat) (cf : CFormat), fmts[k]? = some cf → ∀ (i : Inst), ValidInst i → ∀ txt, formatLayout cf.layout i = some txt →
     parse txt = .ok k (project cf.layout i)
 
-def now0 : Now := ⟨2026, 9, 26⟩
 
 /-- unit and number text of a relative answer -/
 def relHead : LqlRes → Option (UInt8 × Bytes)
